@@ -1,0 +1,71 @@
+//go:build verif
+
+// Contracts for the verification machinery in /verif (comment-only; compiled only with -tags verif).
+package bimap
+
+// ---- C51: the bidirectional map behaves like its model, a partial injective function (set of pairs).
+// Representation invariant: forward and backward are mutually inverse and have the same number of entries.
+// Every operation keeps it, and its effect is stated over the WHOLE view (every key x / every value y), so that
+// an operation that leaves a stale entry behind fails its postcondition. Keys and values are of type-parameter
+// type: the methods are verified once, for all instantiations, with keys and values as opaque identities.
+//@ spec bminv(b) = b.forward != nil && b.backward != nil && mlen(b.forward) == mlen(b.backward) && all(x, mhas(b.forward, x) ==> mhas(b.backward, mget(b.forward, x)) && mget(b.backward, mget(b.forward, x)) == x) && all(y, mhas(b.backward, y) ==> mhas(b.forward, mget(b.backward, y)) && mget(b.forward, mget(b.backward, y)) == y)
+
+//@ func NewBiMap
+//@   props C51
+//@   nofail
+//@   ensures[C51] result != nil && bminv(result) && mlen(result.forward) == 0 && all(x, !mhas(result.forward, x)) && all(y, !mhas(result.backward, y))
+
+//@ func (*BiMap[K, V]).Insert
+//@   requires bminv(b)
+//@   let hadk = mhas(b.forward, k)
+//@   let hadv = mhas(b.backward, v)
+//@   let kofv = mget(b.backward, v)
+//@   let vofk = mget(b.forward, k)
+//@   nofail
+//@   modifies mapof(b.forward), mapof(b.backward)
+//@   ensures[C51] bminv(b)
+//@   ensures[C51] all(x, iff(mhas(b.forward, x), x == k || (old(mhas(b.forward, x)) && !(hadv && kofv == x))))
+//@   ensures[C51] all(x, mhas(b.forward, x) ==> mget(b.forward, x) == ite(x == k, v, old(mget(b.forward, x))))
+//@   ensures[C51] all(y, iff(mhas(b.backward, y), y == v || (old(mhas(b.backward, y)) && !(hadk && vofk == y))))
+//@   ensures[C51] mlen(b.forward) == old(mlen(b.forward)) + ite(hadk, 0, 1) - ite(hadv && kofv != k, 1, 0)
+
+//@ func (*BiMap[K, V]).Exists
+//@   nofail
+//@   ensures[C51] iff(result, mhas(b.forward, k))
+//@ func (*BiMap[K, V]).ExistsInverse
+//@   nofail
+//@   ensures[C51] iff(result, mhas(b.backward, k))
+//@ func (*BiMap[K, V]).Get
+//@   nofail
+//@   ensures[C51] iff(result1, mhas(b.forward, k)) && (result1 ==> result0 == mget(b.forward, k))
+//@ func (*BiMap[K, V]).GetInverse
+//@   nofail
+//@   ensures[C51] iff(result1, mhas(b.backward, v)) && (result1 ==> result0 == mget(b.backward, v))
+
+//@ func (*BiMap[K, V]).Delete
+//@   requires bminv(b)
+//@   let hadk = mhas(b.forward, k)
+//@   let vofk = mget(b.forward, k)
+//@   nofail
+//@   modifies mapof(b.forward), mapof(b.backward)
+//@   ensures[C51] bminv(b)
+//@   ensures[C51] all(x, iff(mhas(b.forward, x), old(mhas(b.forward, x)) && x != k))
+//@   ensures[C51] all(x, mhas(b.forward, x) ==> mget(b.forward, x) == old(mget(b.forward, x)))
+//@   ensures[C51] all(y, iff(mhas(b.backward, y), old(mhas(b.backward, y)) && !(hadk && y == vofk)))
+//@   ensures[C51] mlen(b.forward) == old(mlen(b.forward)) - ite(hadk, 1, 0)
+
+//@ func (*BiMap[K, V]).DeleteInverse
+//@   requires bminv(b)
+//@   let hadv = mhas(b.backward, v)
+//@   let kofv = mget(b.backward, v)
+//@   nofail
+//@   modifies mapof(b.forward), mapof(b.backward)
+//@   ensures[C51] bminv(b)
+//@   ensures[C51] all(y, iff(mhas(b.backward, y), old(mhas(b.backward, y)) && y != v))
+//@   ensures[C51] all(y, mhas(b.backward, y) ==> mget(b.backward, y) == old(mget(b.backward, y)))
+//@   ensures[C51] all(x, iff(mhas(b.forward, x), old(mhas(b.forward, x)) && !(hadv && x == kofv)))
+//@   ensures[C51] mlen(b.forward) == old(mlen(b.forward)) - ite(hadv, 1, 0)
+
+//@ func (*BiMap[K, V]).Size
+//@   nofail
+//@   ensures[C51] result == mlen(b.forward)
